@@ -428,17 +428,23 @@ pub fn check_batch(texts: &[String], vd: &mut Verdict) {
             let n = texts.len();
             let mut bad: Vec<(usize, &'static str)> = vec![];
             barrier.wait();
-            for k in 0..n {
-                // every thread walks the batch in its own order (history differs per thread)
-                let i = (k * (2 * th + 1) + th * 7) % n;
+            for pass in 0..3 {
+                // a pass = the whole batch lexed back to back in this thread's own order
+                // (history differs per thread); the in-flight counter spans the pass
                 let cur = inflight.fetch_add(1, Ordering::SeqCst) + 1;
                 max_inflight.fetch_max(cur, Ordering::SeqCst);
-                let v = if (k + th) % 4 == 0 { Variant::Dbg } else { Variant::Rel };
-                let dg = digest(&lex(v, &texts[i]));
+                let mut got: Vec<(usize, Variant, crate::api::Lexed)> = Vec::with_capacity(n);
+                for k in 0..n {
+                    let i = ((k + pass * 5) * (2 * th + 1) + th * 7) % n;
+                    let v = if (k + th + pass) % 4 == 0 { Variant::Dbg } else { Variant::Rel };
+                    got.push((i, v, lex(v, &texts[i])));
+                }
                 inflight.fetch_sub(1, Ordering::SeqCst);
-                let want = if v == Variant::Dbg { base[i].1 } else { base[i].0 };
-                if dg != want {
-                    bad.push((i, v.name()));
+                for (i, v, l) in got {
+                    let want = if v == Variant::Dbg { base[i].1 } else { base[i].0 };
+                    if digest(&l) != want {
+                        bad.push((i, v.name()));
+                    }
                 }
             }
             bad
@@ -474,13 +480,13 @@ pub struct ThreadsSweep {
 }
 impl Sweep for ThreadsSweep {
     fn name(&self) -> String {
-        format!("{} batches of 48 generated inputs, each batch lexed by 16 threads concurrently (barrier start, per-thread order, debug and optimized builds mixed) and compared with the single-threaded results; first input re-lexed at the end (history)", self.batches)
+        format!("{} batches of 160 generated inputs, each batch lexed by 16 threads concurrently (barrier start, per-thread order, debug and optimized builds mixed) and compared with the single-threaded results; first input re-lexed at the end (history)", self.batches)
     }
     fn chunks(&self) -> usize {
         self.batches
     }
     fn run_chunk(&self, chunk: usize, f: &mut dyn FnMut(Case)) {
-        let texts = batch_inputs(mix2(self.seed, chunk as u64), 48);
+        let texts = batch_inputs(mix2(self.seed, chunk as u64), 160);
         f(Case { kind: "batch".into(), texts, bytes: vec![], n: 0, gen: "thread-batch" });
     }
 }
